@@ -1,9 +1,13 @@
 /-
-  C18 — captured images equal the rows the statement actually changed.  (theorems being added)
+  C18 — captured images equal the rows the statement actually changed.
+
+  `stmtPhase1` (AT/Phase1.lean) is what the executors record for one statement; the theorems relate
+  its images to the table just before (`t`) and just after (`t'`) the statement.
 -/
 import SeataModel.AT.Phase1
+import SeataModel.Lemmas.Store
 namespace Seata.Props.C18
-open Seata Seata.DB Seata.AT
+open Seata Seata.DB Seata.AT Seata.Lemmas.Store
 
 /-- the before image of an UPDATE is the projection (on the tracked columns) of exactly the rows the
     WHERE clause selects, as they are before the statement; its lock keys are those rows' keys -/
@@ -39,5 +43,69 @@ theorem C18_insert_images (sc : Schema) (cfg : Cfg) (t : Table) (args : Args) (r
   · cases h
   · simp only [Except.ok.injEq, Prod.mk.injEq] at h
     rw [← h.2.1, ← h.2.2]; exact ⟨rfl, rfl, rfl, rfl⟩
+
+/-- UPDATE that assigns no key column, on a table with unique keys: the statement succeeds; the new
+    table is the old one with the SET clauses applied to exactly the selected rows; the after image is
+    the projection of exactly those rows as they are after the statement, in the same order as the
+    before image; every other row is untouched and absent from both images. -/
+theorem C18_update_after (sc : Schema) (cfg : Cfg) (t : Table) (args : Args) (sets : List (Nat × SetE)) (w : Cond)
+    (hu : PkUnique sc t) (hs : ∀ p ∈ sets, p.1 ∉ sc.pk) :
+    ∃ item keys,
+      stmtPhase1 sc cfg t args (.update sets w) =
+        .ok (t.map (fun r => if matches_ r args w then applySets args sets r else r), item, keys) ∧
+      item.before = (t.filter fun r => matches_ r args w).map (project sc (updateCols sc cfg sets)) ∧
+      item.after = ((t.filter fun r => matches_ r args w).map (applySets args sets)).map
+        (project sc (updateCols sc cfg sets)) := by
+  have hkey : ∀ r ∈ t, keyOf sc (applySets args sets r) = keyOf sc r :=
+    fun r _ => applySets_keyOf sc args sets r hs
+  have hafter := update_after sc t (fun r => matches_ r args w) (applySets args sets) hu hkey
+  simp only [updated] at hafter
+  simp only [stmtPhase1, apply]
+  rw [hafter]
+  simp
+
+/-- columns recorded for an UPDATE: every column, or — with only-care-update-columns — the assigned
+    columns and the key columns -/
+theorem C18_update_columns (sc : Schema) (cfg : Cfg) (sets : List (Nat × SetE)) (r : Row) :
+    (project sc (updateCols sc cfg sets) r).cells.map (·.1) =
+      if cfg.onlyCare then sets.map (·.1) ++ sc.pk else List.range sc.ncols := by
+  simp only [project, updateCols, allCols, List.map_map]
+  split <;> simp [Function.comp_def]
+
+/-- INSERT on a table with unique keys succeeds exactly when no new key exists yet (nor twice among
+    the new rows); the new rows are appended, nothing else changes -/
+theorem C18_insert_table (sc : Schema) (cfg : Cfg) (t : Table) (args : Args) (rows : List (List Expr))
+    (t' : Table) (item : Item) (keys : List Key) (hu : PkUnique sc t)
+    (h : stmtPhase1 sc cfg t args (.insert rows) = .ok (t', item, keys)) :
+    t' = t ++ rows.map (fun es => es.map (evalE [] args)) ∧ PkUnique sc t' := by
+  simp only [stmtPhase1, apply] at h
+  split at h
+  · cases h
+  · rename_i t1 n hap
+    split at hap
+    · rename_i t2 hgo
+      simp only [Except.ok.injEq, Prod.mk.injEq] at hap h
+      obtain ⟨hg1, hg2⟩ := go_some sc _ t t2 hgo hu
+      rw [← h.1, ← hap.1, hg1]
+      exact ⟨rfl, hg2⟩
+    · cases hap
+
+/-- DELETE removes exactly the selected rows -/
+theorem C18_delete_table (sc : Schema) (cfg : Cfg) (t : Table) (args : Args) (w : Cond)
+    (t' : Table) (item : Item) (keys : List Key)
+    (h : stmtPhase1 sc cfg t args (.delete w) = .ok (t', item, keys)) :
+    t' = t.filter (fun r => !matches_ r args w) := by
+  simp only [stmtPhase1, apply, Except.ok.injEq, Prod.mk.injEq] at h
+  exact h.1.symm
+
+/-! ### non-vacuity -/
+
+example : ∃ item keys, stmtPhase1 { ncols := 2, pk := [0] } ⟨true, true⟩ [[.int 1, .int 5], [.int 2, .int 6]] [.int 2]
+    (.update [(1, .plus 1 (.lit (.int 1)))] (.cmp .eq (.col 0) (.par 0))) = .ok ([[.int 1, .int 5], [.int 2, .int 7]], item, keys) ∧
+    item.before = [⟨[.int 2], [(1, .int 6), (0, .int 2)]⟩] ∧ item.after = [⟨[.int 2], [(1, .int 7), (0, .int 2)]⟩] :=
+  ⟨_, _, rfl, rfl, rfl⟩
+/-- an UPDATE that moves a row to another key is rejected -/
+example : stmtPhase1 { ncols := 2, pk := [0] } ⟨true, false⟩ [[.int 1, .int 5]] []
+    (.update [(0, .val (.lit (.int 9)))] .tt) = .error .pkChanged := rfl
 
 end Seata.Props.C18
